@@ -9,13 +9,17 @@ plain context error) and a server that logs every request it receives.
 One action per observable event of the end-to-end scenario (any number of requests, any number of
 connection epochs):
 * `inv r`        — a caller invokes request `r`;
-* `arr r k`      — the server receives `r` on connection epoch `k` (the client's (re)send on `k`; a copy
+* `bind r`       — top of the `invokeConn` loop: the invocation reads `c.conn` (and `connChanged`) and enters
+                   `conn.Invoke` on the current connection epoch (it may wait there for the session);
+* `init`         — the current connection completes its initialisation (`gotConfig`);
+* `arr r k`      — the server receives `r` on connection epoch `k` (the client's write on `k`; a copy
                    written on an earlier epoch may arrive late);
 * `ack r k`, `res r k` — the server acknowledges / executes-and-answers the copy it received on `k`;
 * `seen r`       — the client's engine left its retry loop for `r` (ack or result processed);
 * `kill`         — the primary connection's transport dies;
-* `fail r`       — the engine of the dead connection fails the un-acknowledged `r` with `ErrEngineClosed`;
-                   `invokeConn` waits for `connChanged`;
+* `fail r`       — `conn.Invoke` on a dead connection returns a retryable error (un-acknowledged request:
+                   `ErrEngineClosed`; not yet initialised connection: `ErrConnDead` from `waitSession`;
+                   failed write: `ErrConnDead`); `invokeConn` parks on the `connChanged` channel it captured;
 * `reconnect`    — `replaceConn`: a new epoch, `connChanged` closed;
 * `retOk r` / `retErr r` — `Invoke` returns;
 * `sendFail r`   — the send on the dying connection fails with a transport error that is returned to the
@@ -38,17 +42,49 @@ structure Cfg where
   /-- a failed transport send is returned to the caller as a plain error (not retried): the rpc engine
   returns it plainly and `manager.Conn.Invoke` does not map it to `pool.ErrConnDead` -/
   sendErrorSurfaces : Bool
+  /-- `invokeConn` reads `connChanged` together with `conn` (same `connMux` critical section) BEFORE
+  `conn.Invoke`, so a replacement that happens while the invocation fails is not missed -/
+  snapshotBeforeInvoke : Bool
+  /-- `manager.Conn.Run` signals `dead` on every return (deferred), so an invocation parked in
+  `waitSession` on a connection that dies before it is initialised gets `ErrConnDead` -/
+  deadAlwaysSignalled : Bool
   deriving Repr, DecidableEq
+
+/-- Position of the first occurrence of an operation code in a regenerated operation list. -/
+def opIdx (ops : List Nat) (code : Nat) : Option Nat :=
+  let i := ops.findIdx (· == code)
+  if i < ops.length then some i else none
+
+/-- `a` occurs, `b` occurs, and the first `a` precedes the first `b`. -/
+def opBefore (ops : List Nat) (a b : Nat) : Bool :=
+  match opIdx ops a, opIdx ops b with
+  | some i, some j => decide (i < j)
+  | _, _ => false
+
+/-- Interpreted from the regenerated statement order of `invokeConn`'s loop body: `conn` and `connChanged`
+are read in one `connMux` critical section that ends before `conn.Invoke` is called, and the wait on
+`connChanged` comes after the classification of the error. -/
+def snapshotFromOps (ops : List Nat) : Bool :=
+  opBefore ops 1 2 && opBefore ops 1 3 && opBefore ops 2 4 && opBefore ops 3 4 && opBefore ops 4 5 &&
+  opBefore ops 5 6 && opBefore ops 6 7
 
 def cfgOfSource : Cfg :=
   { unackedRetryable := Facts.C29.retryableIsDeadOrEngineClosed && Facts.C29.unackedCloseReportsCause &&
       Facts.C29.forceCloseCause && Facts.C29.waitsConnChanged && Facts.C29.replaceConnSignals
     ackedNotRetryable := Facts.C29.ackedCloseReportsCtxErr
     closeUnblocks := Facts.C29.waitsClientDone
-    sendErrorSurfaces := Facts.C29.sendErrorPlain && !Facts.C29.sendErrorMapped }
+    sendErrorSurfaces := Facts.C29.sendErrorPlain && !Facts.C29.sendErrorMapped
+    snapshotBeforeInvoke := snapshotFromOps Facts.C29.invokeLoopOps
+    deadAlwaysSignalled := Facts.C29.connRunOps.contains 1 && opBefore Facts.C29.connRunOps 1 3 &&
+      Facts.C29.waitSessionCases.contains 2 }
 
+/-- Client-side state of one invocation.
+`ready`: in `invokeConn`, about to read `c.conn`; `bound k`: inside `conn.Invoke` on connection epoch
+`k` (waiting for the session or writing); `sent k`: written on `k`, not acknowledged; `acked k`;
+`parked w`: `Invoke` failed with a retryable error, waiting for the `connChanged` channel of epoch `w`
+(closed as soon as the epoch exceeds `w`). -/
 inductive Phase
-  | idle | waitConn | sent (k : Nat) | acked (k : Nat) | doneOk | doneErr
+  | idle | ready | bound (k : Nat) | sent (k : Nat) | acked (k : Nat) | parked (w : Nat) | doneOk | doneErr
   deriving DecidableEq, Repr
 
 inductive Reason | none | ackedLost | closed | sendError
@@ -65,19 +101,20 @@ structure State where
   epoch : Nat
   alive : Bool
   closed : Bool
+  inited : List Nat             -- epochs whose connection completed its initialisation
   arrivals : List (Nat × Nat)   -- (request, epoch), newest first
   acks : List (Nat × Nat)
   results : List (Nat × Nat)
   deriving DecidableEq, Repr
 
 inductive Action
-  | inv (r : Nat) | arr (r k : Nat) | ack (r k : Nat) | res (r k : Nat) | seen (r : Nat)
+  | inv (r : Nat) | bind (r : Nat) | init | arr (r k : Nat) | ack (r k : Nat) | res (r k : Nat) | seen (r : Nat)
   | kill | fail (r : Nat) | reconnect | retOk (r : Nat) | retErr (r : Nat) | sendFail (r : Nat) | close
   deriving DecidableEq, Repr
 
 def init (n : Nat) : State :=
   { reqs := List.replicate n { phase := .idle, reason := .none, ackSeen := none },
-    epoch := 0, alive := true, closed := false, arrivals := [], acks := [], results := [] }
+    epoch := 0, alive := true, closed := false, inited := [], arrivals := [], acks := [], results := [] }
 
 /-- `k` is not later than the epoch on which the acknowledgement was seen (if any). -/
 def notAfterAck : Option Nat → Nat → Bool
@@ -90,20 +127,36 @@ def lateOk (q : Req) (k : Nat) : Bool :=
   notAfterAck q.ackSeen k &&
   (match q.phase with
    | .idle => false
+   | .ready => false
+   | .bound k2 => decide (k < k2)
    | .sent k2 => decide (k < k2)
+   | .parked w => decide (k ≤ w)
    | _ => true)
 
 def setReq (s : State) (r : Nat) (q : Req) : State := { s with reqs := s.reqs.set r q }
 
+/-- The connection of epoch `k` is dead: it was replaced, or it is the current one and its transport died. -/
+def connDead (s : State) (k : Nat) : Bool := decide (k < s.epoch) || !s.alive
+
 def step (cfg : Cfg) (s : State) : Action → Option State
   | .inv r =>
     match s.reqs[r]? with
-    | some q => if q.phase = .idle then some (setReq s r { q with phase := .waitConn }) else none
+    | some q => if q.phase = .idle then some (setReq s r { q with phase := .ready }) else none
     | none => none
+  | .bind r =>
+    -- top of the `invokeConn` loop: `conn := c.conn` (and the `connChanged` snapshot)
+    match s.reqs[r]? with
+    | some q =>
+      match q.phase with
+      | .ready => some (setReq s r { q with phase := .bound s.epoch })
+      | .parked w => if w < s.epoch then some (setReq s r { q with phase := .bound s.epoch }) else none
+      | _ => none
+    | none => none
+  | .init => if s.epoch ∉ s.inited then some { s with inited := s.epoch :: s.inited } else none
   | .arr r k =>
     match s.reqs[r]? with
     | some q =>
-      if q.phase = .waitConn ∧ k = s.epoch ∧ (r, k) ∉ s.arrivals then
+      if q.phase = .bound k ∧ k = s.epoch ∧ k ∈ s.inited ∧ (r, k) ∉ s.arrivals then
         some { setReq s r { q with phase := .sent k } with arrivals := (r, k) :: s.arrivals }
       else if k < s.epoch ∧ (r, k) ∉ s.arrivals ∧ lateOk q k = true then
         -- a copy written on an earlier connection reaches the server late (the client has moved on)
@@ -125,11 +178,19 @@ def step (cfg : Cfg) (s : State) : Action → Option State
     | none => none
   | .kill => if s.alive then some { s with alive := false } else none
   | .fail r =>
+    -- `conn.Invoke` returns a retryable error; `invokeConn` parks on `connChanged`
     match s.reqs[r]? with
     | some q =>
       match q.phase with
       | .sent k =>
-        if (s.alive = false ∨ k < s.epoch) ∧ cfg.unackedRetryable then some (setReq s r { q with phase := .waitConn })
+        if connDead s k ∧ cfg.unackedRetryable then
+          some (setReq s r { q with phase := .parked (if cfg.snapshotBeforeInvoke then k else s.epoch) })
+        else none
+      | .bound k =>
+        -- waiting for the session of a connection that died (`ErrConnDead` from `waitSession`), or the
+        -- write on the dead transport failed and is reported as `ErrConnDead`
+        if connDead s k ∧ ((k ∈ s.inited ∧ cfg.sendErrorSurfaces = false) ∨ (k ∉ s.inited ∧ cfg.deadAlwaysSignalled)) then
+          some (setReq s r { q with phase := .parked (if cfg.snapshotBeforeInvoke then k else s.epoch) })
         else none
       | _ => none
     | none => none
@@ -150,9 +211,9 @@ def step (cfg : Cfg) (s : State) : Action → Option State
       | .idle => none
       | .doneOk => none
       | .doneErr => none
-      | .acked _ =>
+      | .acked k =>
         if s.closed ∧ cfg.closeUnblocks then some (setReq s r { q with phase := .doneErr, reason := .closed })
-        else if s.alive = false ∧ cfg.ackedNotRetryable then
+        else if connDead s k ∧ cfg.ackedNotRetryable then
           some (setReq s r { q with phase := .doneErr, reason := .ackedLost })
         else none
       | _ =>
@@ -162,9 +223,12 @@ def step (cfg : Cfg) (s : State) : Action → Option State
   | .sendFail r =>
     match s.reqs[r]? with
     | some q =>
-      if q.phase = .waitConn ∧ s.alive = false ∧ cfg.sendErrorSurfaces then
-        some (setReq s r { q with phase := .doneErr, reason := .sendError })
-      else none
+      match q.phase with
+      | .bound k =>
+        if connDead s k ∧ cfg.sendErrorSurfaces then
+          some (setReq s r { q with phase := .doneErr, reason := .sendError })
+        else none
+      | _ => none
     | none => none
   | .close => if s.closed then none else some { s with closed := true, alive := false }
 
@@ -182,7 +246,8 @@ def runIdx (cfg : Cfg) (s : State) (i : Nat) : List Action → Except Nat State
 
 /-- Decidable monitor of one state: an acknowledged request was never received on a later epoch; no
 request was received twice on one epoch; an error was returned only for an acknowledged request whose
-connection was lost, or because the client was closed. -/
+connection was lost, or because the client was closed; no invocation is parked on the `connChanged`
+channel of the current epoch while that connection is alive (it would never be woken). -/
 def holdsB (s : State) : Bool :=
   (List.range s.reqs.length).all (fun r =>
     match s.reqs[r]? with
@@ -190,7 +255,10 @@ def holdsB (s : State) : Bool :=
       (match q.ackSeen with
        | some k => s.arrivals.all (fun a => a.1 != r || a.2 ≤ k)
        | none => true) &&
-      (q.phase != .doneErr || q.reason == .ackedLost || q.reason == .closed)
+      (q.phase != .doneErr || q.reason == .ackedLost || q.reason == .closed) &&
+      (match q.phase with
+       | .parked w => decide (w < s.epoch) || !s.alive
+       | _ => true)
     | none => true) &&
   decide s.arrivals.Nodup
 
